@@ -19,6 +19,8 @@ var profiles = map[string]Profile{
 	"roundtrip":  {Name: "roundtrip", Blocks: 20, MaxTx: 4, Oracle: true, Wrongness: 20, Jail: true, MultiTx: true, Roundtrip: true, PeriodMax: 14, Mint: true},
 	"isolation":  {Name: "isolation", Blocks: 24, MaxTx: 5, Oracle: true, Wrongness: 10, Isolation: true, PeriodMax: 10, Faults: false},
 	"erc20":      {Name: "erc20", Blocks: 24, MaxTx: 4, Oracle: true, Wrongness: 10, Erc20: true, Internal: true, PeriodMax: 6, MultiTx: true},
+	"many":       {Name: "many", Blocks: 16, MaxTx: 1, Oracle: false, Imported: true, Many: true, PeriodMax: 3, VotePeriods: []uint64{2, 3}},
+	"manyrt":     {Name: "manyrt", Blocks: 8, MaxTx: 1, Oracle: false, Imported: true, Many: true, Roundtrip: true, PeriodMax: 3, VotePeriods: []uint64{2, 3}},
 	"periods":    {Name: "periods", Blocks: 20, MaxTx: 4, Oracle: true, Wrongness: 5, BigPeriods: true, Internal: true},
 }
 
